@@ -115,4 +115,41 @@ pub fn kh_canon_cycles(s: &mut Src) -> R {
     }
     Ok(())
 }
-crate::harness_table!(COB: cob_closed_eval [unwind 8], cob_open_part_eval [unwind 8], cob_lc_inv [unwind 4], kh_canon_cycles [unwind 4]);
+// C05: the complex returned over a FIELD with arbitrary (h, t) is a chain complex: d(d(x)) = 0 for every generator x.  Over Q the pivots of
+// the Gaussian eliminations carry units other than +-1, which the integer tests never exercise.  Knots from the table up to 7 crossings.
+pub fn kh_dd_zero_q(s: &mut Src) -> R {
+    use yui_link::Link;
+    use yui_kh::kh::{KhComplex, KhChain};
+    use yui::Ratio;
+    type Q = Ratio<i64>;
+    let names = ["3_1", "4_1", "5_2", "6_2", "6_3", "7_7"];
+    let which = s.small(0, 5) as usize;
+    let mirror = s.small(0, 1) == 1;
+    let (hn, hd) = (s.small(-2, 2), s.small(1, 2));
+    let (tn, td) = (s.small(-2, 2), s.small(1, 2));
+    reach!();
+    let Ok(mut l) = Link::load(names[which]) else { ob!(false, "Link::load(table-knot)"); return Ok(()) };
+    if mirror { l = l.mirror(); }
+    let (h, t) = (Q::new(hn, hd), Q::new(tn, td));
+    let c = KhComplex::<Q>::new(&l, &h, &t, false);
+    for i in c.h_range() {
+        for x in c[i].raw_gens().iter() {
+            let z = KhChain::<Q>::from(*x);
+            let dz = c.d(i, &z);
+            ob!(c.d(i + 1, &dz).is_zero(), "KhComplex::d.d==0(over-Q)");
+        }
+    }
+    // the homology over Q: at h = t = 0 its ranks are the free ranks over Z (universal coefficients; the integer pipeline only meets the
+    // units +-1); for h^2 + 4t != 0 (X^2 - hX - t has two distinct roots) a knot has total rank 2, in degree 0
+    use yui_homology::SummandTrait;
+    let hq = c.homology();
+    if hn == 0 && tn == 0 {
+        let hz = KhComplex::<i64>::new(&l, &0, &0, false).homology();
+        for i in hz.h_range() { ob!(hq[i].rank() == hz[i].rank(), "KhHomology::rank(Q)==free-rank(Z)"); }
+    } else if hn * hn * td + 4 * tn * hd * hd != 0 {
+        let total: usize = hq.h_range().map(|i| hq[i].rank()).sum();
+        ob!(total == 2 && hq[0].rank() == 2, "KhHomology::Lee-type-over-Q-has-rank-2-in-degree-0");
+    }
+    Ok(())
+}
+crate::harness_table!(COB: cob_closed_eval [unwind 8], cob_open_part_eval [unwind 8], cob_lc_inv [unwind 4], kh_canon_cycles [unwind 4], kh_dd_zero_q [unwind 4]);
